@@ -9,6 +9,7 @@ import (
 	"strings"
 	"time"
 
+	"github.com/zitadel/saml/pkg/provider"
 	"github.com/zitadel/saml/pkg/provider/key"
 
 	"verif/harness/core"
@@ -29,6 +30,13 @@ func c12Case(r *core.Run, idx int, rng *rand.Rand) {
 		host = []string{"h1.idp.example", "h2.example:8443"}[rng.Intn(2)]
 		o.HostPath = "/saml"
 	}
+	// now and then the attribute service is advertised under an external URL (a gateway in front of the provider)
+	extAttr := ""
+	if host == "" && idx%7 == 3 {
+		extAttr = "https://gateway.example/idp/attributes/" + plainString(rng, 3)
+		ep := provider.NewEndpointWithURL("/attribute", extAttr)
+		o.Endpoints = &provider.EndpointConfig{Attribute: &ep}
+	}
 	var e *env.Env
 	if host != "" {
 		var err error
@@ -39,6 +47,9 @@ func c12Case(r *core.Run, idx int, rng *rand.Rand) {
 		e = env.Static(o)
 	}
 	attrLoc, ssoLoc, entity := idpAttr, idpSSO, idpEntityID
+	if extAttr != "" {
+		attrLoc = extAttr
+	}
 	if host != "" {
 		attrLoc, ssoLoc, entity = "https://"+host+"/saml/attribute", "https://"+host+"/saml/SSO", "https://"+host+"/saml/metadata"
 	}
@@ -122,6 +133,9 @@ func c12Case(r *core.Run, idx int, rng *rand.Rand) {
 		dest, q.Destination = "sso_location", ssoLoc
 	case 2:
 		dest, q.Destination = "foreign", []string{evilURL(rng), attrLoc + "/", strings.ToUpper(attrLoc), "https://other.example/saml/attribute", idpAttr + "x"}[rng.Intn(5)]
+		if extAttr != "" && rng.Intn(2) == 0 {
+			q.Destination = idpAttr // the route below the issuer, which is not what the metadata advertises
+		}
 		if q.Destination == attrLoc {
 			dest = "attribute_service"
 		}
